@@ -139,9 +139,10 @@ class ModelElement(ABC):
 
     @name.setter
     def name(self, value: str):
-        self._name = value
         if self.__dict__.get('topo', None) is not None:
             self.set_property('name', value)
+        # the cached name follows the graph: it changes only once the graph accepted the new name
+        self._name = value
 
     @property
     def capacities(self):
